@@ -294,6 +294,39 @@ fn c03_full_partition_ignores_random_process() {
 }
 }
 
+// @verif id=C03 tier=thorough role=send_step timeout=900 desc=(Healthy,Explicit),send-a->b(healthy-direction),rates=0/1
+crate::verif_proof! { unwind = 4;
+#[kani::stub(std::collections::VecDeque::remove, crate::verif_common::vecdeque_remove_stub)]
+#[kani::stub(std::collections::VecDeque::swap_remove_back, crate::verif_common::vecdeque_swap_remove_back_stub)]
+#[kani::stub(std::collections::VecDeque::swap_remove_front, crate::verif_common::vecdeque_swap_remove_front_stub)]
+fn c03_healthy_direction_of_a_oneway_partition_still_delivers() {
+    let (changed, queued, matured) = send_step(State::Healthy, State::ExplicitPartition, true, 0.0, 1.0);
+    assert!(!changed && (queued || matured));
+    kani::cover!(queued || matured, "in flight on the healthy direction");
+}
+}
+// @verif id=C03 tier=thorough role=send_step timeout=900 desc=(Explicit,Explicit),send-b->a,rates=1/1
+crate::verif_proof! { unwind = 4;
+#[kani::stub(std::collections::VecDeque::remove, crate::verif_common::vecdeque_remove_stub)]
+#[kani::stub(std::collections::VecDeque::swap_remove_back, crate::verif_common::vecdeque_swap_remove_back_stub)]
+#[kani::stub(std::collections::VecDeque::swap_remove_front, crate::verif_common::vecdeque_swap_remove_front_stub)]
+fn c03_full_partition_drops_reverse_traffic_too() {
+    let (changed, queued, matured) = send_step(State::ExplicitPartition, State::ExplicitPartition, false, 1.0, 1.0);
+    assert!(!changed && !queued && !matured);
+    kani::cover!(!queued, "dropped");
+}
+}
+// @verif id=C03 tier=thorough role=send_step timeout=900 desc=(Healthy,Explicit),send-a->b,rates=1/1(random-failure-of-the-healthy-direction)
+crate::verif_proof! { unwind = 4;
+#[kani::stub(std::collections::VecDeque::remove, crate::verif_common::vecdeque_remove_stub)]
+#[kani::stub(std::collections::VecDeque::swap_remove_back, crate::verif_common::vecdeque_swap_remove_back_stub)]
+#[kani::stub(std::collections::VecDeque::swap_remove_front, crate::verif_common::vecdeque_swap_remove_front_stub)]
+fn c03_random_failure_next_to_an_explicit_partition() {
+    let (changed, _queued, _matured) = send_step(State::Healthy, State::ExplicitPartition, true, 1.0, 1.0);
+    kani::cover!(changed, "the healthy direction failed at random, the explicit one stayed explicit");
+}
+}
+
 // (not shipped: a `deliver_step` through `Link::deliver_messages` with a real `Host` refusing a TCP
 // segment - the refusal RST must not cross an explicitly partitioned direction - had no verdict in
 // 15 min, with symbolic or concrete addresses: `drain(..).collect()` of envelopes plus the reply's
@@ -549,6 +582,29 @@ fn c14_tick_three_messages_two_directions() {
     let (left, moved) = hold_release::<3>([true, false, true], [true, true, false], false, false);
     assert!(left == 1 && moved == 2);
     kani::cover!(moved == 2, "one per direction");
+}
+}
+
+// @verif id=C08 tier=thorough role=release_delivers timeout=900 desc=three-held-messages-two-directions
+crate::verif_proof! { unwind = 6;
+#[kani::stub(std::collections::VecDeque::remove, crate::verif_common::vecdeque_remove_stub)]
+#[kani::stub(std::collections::VecDeque::swap_remove_back, crate::verif_common::vecdeque_swap_remove_back_stub)]
+#[kani::stub(std::collections::VecDeque::swap_remove_front, crate::verif_common::vecdeque_swap_remove_front_stub)]
+fn c08_release_three_held_messages_two_directions() {
+    let (left, moved) = hold_release::<3>([true, false, true], [false, true, false], true, true);
+    assert!(left == 0 && moved == 3);
+    kani::cover!(moved == 3, "all released, each direction in its own send order");
+}
+}
+// @verif id=C08 tier=thorough role=hold_blocks timeout=900 desc=two-held-messages-reverse-direction
+crate::verif_proof! { unwind = 5;
+#[kani::stub(std::collections::VecDeque::remove, crate::verif_common::vecdeque_remove_stub)]
+#[kani::stub(std::collections::VecDeque::swap_remove_back, crate::verif_common::vecdeque_swap_remove_back_stub)]
+#[kani::stub(std::collections::VecDeque::swap_remove_front, crate::verif_common::vecdeque_swap_remove_front_stub)]
+fn c08_hold_blocks_the_reverse_direction_too() {
+    let (left, moved) = hold_release::<2>([false, false], [true, true], true, false);
+    assert!(left == 2 && moved == 0);
+    kani::cover!(left == 2, "both stay held");
 }
 }
 
